@@ -1181,16 +1181,25 @@ impl<T: PPGEvaluatorStrategy> PPGEvaluator<T> {
     }
 
     fn process_signals(&mut self, depth: u32) -> Result<(), PPGEvaluatorError> {
-        debug!("");
-        debug!("Process signals, depth {}", depth);
-        let res = self.inner_process_signals(depth);
-        debug!("Leaving process signals, {}", depth);
-        res
+        // one round per wave of signals. A long chain of jobs needs a number of waves
+        // proportional to its length (e.g. when an up to date project is re-evaluated), so
+        // this is a loop, not a recursion, and the limit grows with the size of the graph.
+        let mut depth = depth;
+        loop {
+            debug!("");
+            debug!("Process signals, depth {}", depth);
+            self.inner_process_signals(depth)?;
+            debug!("Leaving process signals, {}", depth);
+            if self.signals.is_empty() {
+                return Ok(());
+            }
+            depth += 1;
+        }
     }
 
     fn inner_process_signals(&mut self, depth: u32) -> Result<(), PPGEvaluatorError> {
-        if depth > 1500 {
-            return Err(PPGEvaluatorError::InternalError("Depth ConsiderJob loop. Either pathological input, or bug. Aborting to avoid stack overflow".to_string()));
+        if depth as usize > 1500 + 20 * self.jobs.len() {
+            return Err(PPGEvaluatorError::InternalError("Depth ConsiderJob loop. Either pathological input, or bug. Aborting to avoid an endless loop".to_string()));
         }
         let mut new_signals = Vec::new();
         let mut ignore_consider_signals = HashSet::new();
@@ -1621,9 +1630,6 @@ impl<T: PPGEvaluatorStrategy> PPGEvaluator<T> {
                 self.signals.push_back(s);
             }
             //self.signals.extend(new_signals.drain(..));
-        }
-        if !self.signals.is_empty() {
-            self.process_signals(depth + 1)?;
         }
         Ok(())
     }
